@@ -26,6 +26,9 @@ type ProcIn struct {
 	Grace   int  `json:"grace"`   // proxy.deregistergraceperiod, ms
 	Dynamic bool `json:"dynamic"` // add a tcp-dynamic listener
 	Refresh int  `json:"refresh"` // its refresh interval, ms
+	// a second signal ("TERM" or "INT") SecondAfter ms after the SIGTERM, i.e. while the exit handler is draining
+	Second      string `json:"second,omitempty"`
+	SecondAfter int    `json:"second_after,omitempty"`
 }
 
 type ProcOut struct {
@@ -108,6 +111,15 @@ func runProcess(in *ProcIn) (*ProcOut, error) {
 	// the refresher's next wake-up after SIGTERM must fall well inside grace + wait, or nothing can be observed
 	if in.Dynamic && (in.Refresh < 50 || in.Refresh+500 > in.Grace+in.Wait) {
 		return nil, fmt.Errorf("%w: refresh must be ≥ 50 ms and end ≥ 500 ms before grace + wait", errEnvelope)
+	}
+	switch in.Second {
+	case "":
+	case "TERM", "INT": // the short tunnel (ends at grace + wait/4) must still be in flight when it arrives
+		if in.SecondAfter < 50 || in.SecondAfter+100 > in.Grace+in.Wait/4 {
+			return nil, fmt.Errorf("%w: second_after", errEnvelope)
+		}
+	default:
+		return nil, fmt.Errorf("%w: second signal %q", errEnvelope, in.Second)
 	}
 	bin, err := buildFabio()
 	if err != nil {
@@ -192,6 +204,14 @@ func runProcess(in *ProcIn) (*ProcOut, error) {
 	cmd.Process.Signal(syscall.SIGTERM)
 	tm := time.AfterFunc(grace+wait/4, short.Release)
 	defer tm.Stop()
+	if in.Second != "" {
+		sig := syscall.SIGTERM
+		if in.Second == "INT" {
+			sig = syscall.SIGINT
+		}
+		t2 := time.AfterFunc(time.Duration(in.SecondAfter)*time.Millisecond, func() { cmd.Process.Signal(sig) })
+		defer t2.Stop()
+	}
 
 	// Poll every listener from SIGTERM until the process is gone. Judged afterwards, in a way that does not
 	// depend on how punctual this process or fabio's own sleeps were:
@@ -281,6 +301,8 @@ func init() {
 			switch i % 4 {
 			case 0: // refresher wakes several times inside the grace period
 				in.Dynamic, in.Refresh = true, []int{60, 100, 200}[r.Intn(3)]
+			case 1, 3: // a second signal while the exit handler drains (supervisor re-sending TERM, ^C twice)
+				in.Second, in.SecondAfter = []string{"TERM", "INT"}[i/2%2], []int{100, 200, 300}[r.Intn(3)]
 			case 2: // refresher is asleep when SIGTERM arrives and wakes only after proxy.Shutdown closed the port
 				in.Dynamic, in.Refresh = true, []int{900, 1200}[r.Intn(2)]
 				in.Wait, in.Grace = []int{2000, 2500}[r.Intn(2)], []int{300, 450}[r.Intn(2)]
